@@ -134,7 +134,7 @@ def runs_for(pid, tier, seed):
         ]
         return runs
     if pid == 'C10':
-        st = {'plain', 'wide', 'tabs', 'crlf'}
+        st = {'plain', 'wide', 'tabs', 'crlf', 'nofinal'}
         ld = dict(CritLists=none, CheckText=True, Styles=st, InfoBlocks={False, True}, PCs={False}, Stabs={False}, ReportCap=0,
                   ExportMode='load')
         inv = ['FamilyWellFormed', 'ReadRender', 'Export']
